@@ -459,11 +459,23 @@ Proof.
 Qed.
 
 (* the context of a process body: the top-level provider names it mentions *)
+Definition row_ctx (used : list string) (t : sty) (provs : list name) (g : gmap string sty) : gmap string sty :=
+  fold_right (fun n g' => if str_mem (ident n) used then <[ident n := t]> g' else g') g provs.
+
+Lemma row_ctx_lookup used t provs g x A : row_ctx used t provs g !! x = Some A ->
+  (exists n, In n provs /\ ident n = x /\ A = t) \/ g !! x = Some A.
+Proof.
+  induction provs as [|n r IH]; simpl; auto.
+  destruct (str_mem (ident n) used).
+  - intros H. apply lookup_insert_Some in H. destruct H as [[<- <-]|[_ H]]; [left; exists n; auto|].
+    destruct (IH H) as [[m [H1 H2]]|H']; [left; exists m; auto|auto].
+  - intros H. destruct (IH H) as [[m [H1 H2]]|H']; [left; exists m; auto|auto].
+Qed.
+
 Definition proc_ctx (p : program) (pr : procdef) : gmap string sty :=
   fold_right (fun pr' (g : gmap string sty) =>
                 match pr_type pr' with
-                | Some t => if str_mem (ident (prov1 pr')) (map ident (free_names (pr_body pr)))
-                            then <[ident (prov1 pr') := t]> g else g
+                | Some t => row_ctx (map ident (free_names (pr_body pr))) t (pr_providers pr') g
                 | None => g
                 end) ∅ (p_procs p).
 
@@ -472,22 +484,21 @@ Proof.
   unfold top_sub, proc_ctx. induction (p_procs p) as [|pr' l IH]; simpl; intros x A.
   - rewrite lookup_empty. discriminate.
   - destruct (pr_type pr') as [t|] eqn:Et.
-    + destruct (str_mem _ _).
-      * intros H. apply lookup_insert_Some in H. destruct H as [[<- <-]|[_ H]]; [eauto|].
-        destruct (IH x A H) as [q [H1 H2]]. eauto.
-      * intros H. destruct (IH x A H) as [q [H1 H2]]. eauto.
-    + intros H. destruct (IH x A H) as [q [H1 H2]]. eauto.
+    + intros H. apply row_ctx_lookup in H. destruct H as [[n [H1 [H2 ->]]]|H]; [exists pr', n; auto|].
+      destruct (IH x A H) as [q [n [H1 H2]]]. exists q, n. split; auto.
+    + intros H. destruct (IH x A H) as [q [n [H1 H2]]]. exists q, n. split; auto.
 Qed.
 
 Definition proc_ok_b (p : program) (pr : procdef) : bool :=
   match pr_type pr, pr_providers pr with
-  | Some t, [n] => binder_b n && typed_b (p_types p) (p_funs p) (proc_ctx p pr) None {[ "" ]} t (pr_body pr)
+  | Some t, _ :: _ => forallb binder_b (pr_providers pr) &&
+                      typed_b (p_types p) (p_funs p) (proc_ctx p pr) None {[ "" ]} t (pr_body pr)
   | _, _ => false
   end.
 
 Definition static_typed_b (p : program) : bool :=
   forallb (fun_ok_b (p_types p) (p_funs p)) (p_funs p) &&
-  negb (has_dup (map (fun pr => ident (prov1 pr)) (p_procs p))) &&
+  negb (has_dup (map ident (all_providers p))) &&
   forallb (proc_ok_b p) (p_procs p).
 
 Theorem static_typed_b_sound p : static_typed_b p = true -> static_typed (teq_alg (p_types p)) p.
@@ -498,27 +509,17 @@ Proof.
   split. { apply has_dup_NoDup. destruct (has_dup _); auto; discriminate. }
   rewrite Forall_forall. rewrite forallb_forall in H3. intros pr Hpr. specialize (H3 pr Hpr).
   unfold proc_ok_b in H3. destruct (pr_type pr) as [t|]; [|discriminate].
-  destruct (pr_providers pr) as [|n [|]] eqn:En; try discriminate.
+  destruct (pr_providers pr) as [|n r] eqn:En; try discriminate.
   apply andb_true_iff in H3. destruct H3 as [H3 H4].
-  exists t, n, (proc_ctx p pr). split; auto. split; auto. split; [apply binder_b_sound; auto|].
+  exists t, (proc_ctx p pr). split; auto. split; [discriminate|].
+  split. { rewrite Forall_forall. rewrite forallb_forall in H3. intros x Hx. apply binder_b_sound. auto. }
   split; [apply proc_ctx_sub|]. apply typed_b_sound; auto.
 Qed.
 
-Definition in_fragment_b (p : program) : bool :=
-  match p_assumed p with [] => true | _ => false end &&
-  forallb (fun pr => frag_form (pr_body pr) && match pr_providers pr with [_] => true | _ => false end) (p_procs p) &&
-  forallb (fun fd => frag_form (fn_body fd)) (p_funs p).
+Definition in_fragment_b (p : program) : bool := match p_assumed p with [] => true | _ => false end.
 
 Lemma in_fragment_b_sound p : in_fragment_b p = true -> in_fragment p.
-Proof.
-  unfold in_fragment_b, in_fragment. intros H.
-  apply andb_true_iff in H. destruct H as [H H3]. apply andb_true_iff in H. destruct H as [H1 H2].
-  split; [destruct (p_assumed p); auto; discriminate|]. split.
-  - rewrite Forall_forall. rewrite forallb_forall in H2. intros pr Hpr. specialize (H2 pr Hpr).
-    apply andb_true_iff in H2. destruct H2 as [Ha Hb]. split; auto.
-    destruct (pr_providers pr) as [|n [|]]; try discriminate. eauto.
-  - rewrite Forall_forall. rewrite forallb_forall in H3. auto.
-Qed.
+Proof. unfold in_fragment_b, in_fragment. destruct (p_assumed p); auto; discriminate. Qed.
 
 (* what the check module prints for a program text *)
 Inductive static_verdict : Type := SV_typed | SV_not_typed | SV_outside_fragment | SV_rejected | SV_parse_error.
